@@ -10,7 +10,7 @@ from . import core, e2e, proj
 FAKE_SH = """#!/bin/sh
 # logging sh: record `-c <command>` and the environment, then run the real shell
 if [ "$1" = "-c" ] && [ -n "$LAZE_VERIF_SH_LOG" ]; then
-  { printf 'CMD\\037%s\\036' "$2"; env -0; printf '\\035'; } >> "$LAZE_VERIF_SH_LOG"
+  { printf 'CMD\\037%s\\036' "$2"; printf 'LAZE_VERIF_CWD=%s\\0' "$(pwd -P)"; env -0; printf '\\035'; } >> "$LAZE_VERIF_SH_LOG"
 fi
 exec /bin/sh "$@"
 """
@@ -44,7 +44,7 @@ def run_task(laze, files, cli, builder, app, task):
                     k, _, v = kv.partition(b"=")
                     if k: ev[k.decode("utf-8", "replace")] = v.decode("utf-8", "replace")
                 inv.append((cmd.decode("utf-8", "replace"), ev))
-        return dict(rc=rc, invocations=inv, stderr=se, argv=args[1:])
+        return dict(rc=rc, invocations=inv, stderr=se, argv=args[1:], root=os.path.realpath(root))
     finally:
         shutil.rmtree(tmp, ignore_errors=True)
 
@@ -61,7 +61,7 @@ def check(laze, cases, results, limit=40):
         for b in m["builds"]:
             for name, t in sorted(b.get("tasks", {}).items()):
                 if t["status"] != "ok" or not t["cmd"]: continue
-                key = (name, tuple(t["cmd"]), tuple(t["export"]))
+                key = (name, tuple(t["cmd"]), tuple(t["export"]), t.get("workdir"))
                 if key in seen: continue          # the same evaluated task for another build: one is enough
                 seen.add(key)
                 if any("LAZE_VERIF_TASK_SCRIPT" in c for c in t["cmd"]): continue
@@ -85,4 +85,9 @@ def check(laze, cases, results, limit=40):
                 if ev.get(k) != v:
                     bad.append(("task %s of %s/%s: exported %s=%r in the task's environment, the model has %r" % (name, builder, app, k, ev.get(k), v), data))
                     break
+            # the working directory: the task's workdir (relative to the project root, where laze runs), else the project root
+            wantdir = os.path.normpath(os.path.join(o["root"], t.get("workdir") or "."))
+            if ev.get("LAZE_VERIF_CWD") is not None and os.path.normpath(ev["LAZE_VERIF_CWD"]) != wantdir:
+                bad.append(("task %s of %s/%s: runs in %r, the model's evaluated task has workdir %r" % (name, builder, app, ev.get("LAZE_VERIF_CWD"), t.get("workdir")), data))
+                break
     return len(jobs), bad
